@@ -25,5 +25,6 @@ func init() {
 	blsx.Runners["keygen"] = wrap(keyx.RunKeyGen)
 	blsx.Runners["keygen-leading-zeros"] = wrap(func(c json.RawMessage, seed int64) keyx.Result { return keyx.RunLeadingZeros(seed, false) })
 	blsx.Runners["keygen-structured-scalars"] = wrap(func(c json.RawMessage, seed int64) keyx.Result { return keyx.RunStructuredScalars(seed) })
+	blsx.Runners["keygen-after-noise"] = wrap(func(c json.RawMessage, seed int64) keyx.Result { return keyx.RunKeyGenAfterNoise(seed) })
 	blsx.Runners["keygen-leading-zeros-deep"] = wrap(func(c json.RawMessage, seed int64) keyx.Result { return keyx.RunLeadingZeros(seed, true) })
 }
